@@ -129,6 +129,21 @@ theorem serveClosure_eq (icfg : ICfg) (debug : Bool) (r : Req) (pre : HdrMap) :
               subst hn
               rfl
 
+/-- `(*Middleware).Reconfigure` as translated = the state machine's `Mw.reconfigure`: the error return before anything is
+written, the new configuration pointer, `debug = cfg != nil && debug`. -/
+theorem reconfigure_eq (ext : Ext) (m : Mw) (cfg : Option Config) :
+    Gen.GoSrc.reconfigure ext m cfg = Mw.reconfigure ext m cfg := by
+  unfold Gen.GoSrc.reconfigure Mw.reconfigure GoRt.newInternalConfig
+  cases cfg with
+  | none => rfl
+  | some c =>
+    cases h : newInternalConfig ext c with
+    | error e => simp [h]
+    | ok i => simp [h]
+
+/-- `(*Middleware).SetDebug` as translated = `Mw.setDebug`. -/
+theorem setDebug_eq (m : Mw) (b : Bool) : Gen.GoSrc.setDebug m b = Mw.setDebug m b := rfl
+
 /-- The four decision steps of the preflight pipeline, as translated from the working tree, are the modelled ones. -/
 theorem pipeline_eq (icfg : ICfg) (buf : Buf) (reqHdrs : HdrMap) (origin acrm : Bytes) (debug : Bool) :
     Gen.GoSrc.processOriginForPreflight icfg buf origin [origin] = GoRt.result buf (Serve.processOriginForPreflight (modelDec icfg) icfg buf origin) ∧
